@@ -252,6 +252,26 @@ class FlowAnalyser(object):
                     return mk("bounded", call)
                 return mk("eager", call, detail="deque() without maxlen keeps the whole flow")
             return mk("test", call)
+        if canon == "functools.reduce" and pos == 2 and len(call.args) == 3 and isinstance(call.args[0], (ast.Name, ast.Attribute)):
+            # reduce(f, items, flow): the flow is the initial accumulator, handed to f as its first argument for every item --
+            # the left fold `for x in items: flow = f(flow, x)`.  Lazy exactly when f only wraps its first argument.
+            t = self.res.resolve(call.args[0])
+            cal = t.node if t is not None and t.is_func else None
+            if cal is not None and depth < 4 and not (not isinstance(cal, ast.Lambda) and A.is_generator(cal)):
+                params = [p for p in A.func_params(cal) if p != "self"]
+                if len(params) == 2:
+                    inner = self.uses(cal, [params[0]], depth + 1)
+                    out = []
+                    returns_view = False
+                    for u in inner:
+                        if u.kind == "return":
+                            returns_view = True
+                        elif u.kind not in ("alias", "test"):
+                            out.append(Use(u.kind, u.node, bound=u.bound if u.bound is not None else bound, via=via + (call,) + u.via,
+                                           root=root, detail=u.detail or "inside %s" % A.qualname(cal)))
+                    if returns_view:
+                        out.extend(self.classify(call, root, via + (call,), bound, depth))
+                    return out
         if canon in EAGER_CANON or (canon is None and name == "join" and isinstance(call.func, ast.Attribute)
                                     and isinstance(call.func.value, ast.Constant)):
             if bound is not None:
